@@ -179,7 +179,7 @@ def run(ctx):
                       "dir=%s in=%s event=%s" % (tr["dir"], tr["in"], json.dumps({k: v for k, v in ev.items() if k in ("k", "name", "exc", "rethex", "stephex", "inhex", "outhex")})[:500]),
                       case={"dir": tr["dir"], "in": tr["in"], "ht": tr["ht"], "vcv": tr["vcv"]})
     good = [t for i, t in enumerate(traces) if i not in set(f[0] for f in fails)]
-    ctx.extra["binding_selftest"] = selftest(good)
+    ctx.selftest(selftest, good)
     for t in traces:
         ctx.nontrivial((t["dir"], t["ht"], t["vcv"], json.dumps(t["in"])))
         for e in t["ev"]:
